@@ -60,4 +60,25 @@ theorem reentrant_sequential_outside_window (md : Mode) (s : St) (g g' : Sig) (k
              | 2, h | 3, h => (simp at h)
            | n + 3, h => (simp at h)))
 
+/-- a schedule without nested signals: `traceN` (what the driver prints) is `trace` -/
+theorem traceN_plain (md : Mode) (s : St) (evs : List EvN) (hp : ∀ e ∈ evs, ∀ sp, e = .sig sp → sp.nested = none) :
+    (traceN md s evs).map (fun t => (t.1.plain, t.2)) = trace md s (evs.map EvN.plain) := by
+  induction evs generalizing s with
+  | nil => rfl
+  | cons e r ih =>
+    have hr : ∀ e ∈ r, ∀ sp, e = .sig sp → sp.nested = none := fun e he => hp e (List.mem_cons_of_mem _ he)
+    have he := hp e List.mem_cons_self
+    cases e with
+    | step m =>
+      simp only [traceN, trace, List.map_cons, execN]
+      rw [ih _ hr]
+      rfl
+    | sig sp =>
+      obtain ⟨g, n⟩ := sp
+      have : n = none := he ⟨g, n⟩ rfl
+      subst this
+      simp only [traceN, trace, List.map_cons, execN]
+      rw [ih _ hr]
+      rfl
+
 end MpVerif.C15
